@@ -771,3 +771,52 @@ Example proxy_nonvacuous :
   | _ => False
   end.
 Proof. vm_compute. repeat split. Qed.
+
+(** *** statements as registered in props/C03.v *)
+Lemma hop_table_complete_all :
+  (forall n, In n ["Connection"; "Keep-Alive"; "Proxy-Connection"; "Proxy-Authenticate"; "Proxy-Authorization";
+                   "TE"; "Trailer"; "Transfer-Encoding"; "Upgrade"] ->
+     forall h, h_values_exact (canon_key n) (clone_header h) = [] /\ h_has_exact (canon_key n) (clone_header h) = false) /\
+  (forall h t, In t (connection_tokens h) ->
+     h_values_exact (canon_key t) (clone_header h) = [] /\ h_has_exact (canon_key t) (clone_header h) = false).
+Proof.
+  exact (conj hop_table_complete connection_named_stripped).
+Qed.
+
+Lemma request_faithful_all : forall f q c,
+  q_proxy_decoded_path q = false -> url_round_trip f -> ra_off c ->
+  (forall r b added cloned, forward q f c r = ReqSent b added cloned ->
+     bq_method b = cq_method r /\
+     f_parse_target f (bq_target b) = f_parse_target f (cq_target r) /\
+     bq_body b = cq_body r /\
+     (forall k, transport_managed k = false ->
+        h_values_exact k (bq_headers b) = if stripped (cq_headers r) k then [] else h_values_exact k (cq_headers r)) /\
+     (stripped (cq_headers r) "Accept-Encoding" = false -> nonempty (h_get "Accept-Encoding" (cq_headers r)) = true ->
+        h_values_exact "Accept-Encoding" (bq_headers b) = h_values_exact "Accept-Encoding" (cq_headers r))) /\
+  (forall r p qy, f_parse_target f (cq_target r) = Some (p, qy) ->
+     (exists t', f_build_target f (f_escaped_path f (cq_target r)) qy = Some t') ->
+     exists b added cloned, forward q f c r = ReqSent b added cloned).
+Proof.
+  exact (fun f q c Hq Hrt Hoff =>
+           conj (fun r b added cloned => request_faithful f q c r b added cloned Hq Hrt Hoff)
+                (fun r p qy => request_forwarded f q c r p qy Hq Hoff)).
+Qed.
+
+Lemma response_content_total : forall f q c hs added b content,
+  (forall x, f_gunzip f (f_gzip f x) = Some x) ->
+  q_compress_keeps_length q = false -> q_adaptor_body_keeps_length q = false -> q_stream_compress_panics q = false ->
+  backend_well_framed b -> label_simple (br_headers b) ->
+  decode f (br_headers b) (br_body b) = Some content ->
+  exists w, respond q f c hs added b = Some w /\
+    (w = failure 500 \/
+     (w_status w = br_status b /\ same_e2e (w_headers w) (br_headers b) /\
+      decode f (w_headers w) (w_body w) = Some (adapted (p_rs c) content))).
+Proof.
+  exact (fun f q c hs added b content gz H1 H2 H4 Hwf Hl Hc =>
+           match respond q f c hs added b as o
+                 return respond q f c hs added b = o -> exists w, o = Some w /\ _ with
+           | Some w => fun E => ex_intro _ w (conj eq_refl (response_content f gz q c hs added b w content H1 H2 Hwf Hl Hc E))
+           | None => fun E => False_ind _ (always_answers f q c hs added b H4 E)
+           end eq_refl).
+Qed.
+
